@@ -96,3 +96,31 @@ Print Assumptions C18_loops_independent_vec.
 Print Assumptions C18_vec_mutation_indexed.
 Print Assumptions C18_exec_stack.
 Print Assumptions C18_for_leaves_no_state.
+
+(* ======================================================================================================== *)
+(* R2G block (added; see notes/R2G.md): ObjVecIter::next, ObjTupleIter::next, ObjRangeIter::{new,next}, TRANSLATED
+   from the current object.rs into gen/PureIter.v by translator/rust2gallina.py on every run, equal the native
+   cursors of the hand-written model (IterModel.vec_next / range_new / range_next).  A change of one of these Rust
+   functions changes the generated text and breaks the NAMED statement. *)
+From YVGen Require PureIter.
+From YV Require Index R2G R2GProofs PureEquivIter.
+Theorem C18_gen_vec_iter_next_eq_model : forall (xs : list value) cur,
+  (Z.of_nat (length xs) < 2 ^ 64)%Z ->
+  PureIter.ObjVecIter_next xs (Z.of_nat cur) = R2G.Val (PureEquivIter.cursor_view (vec_next xs cur)).
+Proof. exact PureEquivIter.gen_vec_iter_next_eq_model. Qed.
+Theorem C18_gen_tuple_iter_next_eq_model : forall (xs : list value) cur,
+  (Z.of_nat (length xs) < 2 ^ 64)%Z ->
+  PureIter.ObjTupleIter_next xs (Z.of_nat cur) = R2G.Val (PureEquivIter.cursor_view (vec_next xs cur)).
+Proof. exact PureEquivIter.gen_tuple_iter_next_eq_model. Qed.
+Theorem C18_gen_range_iter_new_eq_model : forall b e, PureIter.ObjRangeIter_new b e = range_new b e.
+Proof. exact PureEquivIter.gen_range_iter_new_eq_model. Qed.
+Theorem C18_gen_range_iter_next_eq_model : forall e cur step,
+  Index.in_isize (cur + step) = true ->
+  PureIter.ObjRangeIter_next e cur step =
+  R2G.Val (PureEquivIter.range_item_view (fst (range_next e cur step)), snd (range_next e cur step)).
+Proof. exact PureEquivIter.gen_range_iter_next_eq_model. Qed.
+Print Assumptions C18_gen_vec_iter_next_eq_model.
+Print Assumptions C18_gen_tuple_iter_next_eq_model.
+Print Assumptions C18_gen_range_iter_new_eq_model.
+Print Assumptions C18_gen_range_iter_next_eq_model.
+(* ================================================ end of the R2G block ================================= *)
